@@ -45,6 +45,16 @@ class C15(PropBase):
         params['rate_limit_window_size'] = w
         params['rate_limit_max_bitrate'] = br
         ops = [{'op': 'layer', 'i': 0, 'addr': a, 'params': params}]
+        # a slow CAN driver: txfn takes time, so the clock moves INSIDE a pass (between the limiter's update and each hand-over).
+        # The model's passes take no time: these scenarios are judged on the implementation trace only.
+        slow = rng.random() < 0.15
+        if slow:
+            ops[0]['tx_cost_ns'] = rng.choice([SLOT // 5, SLOT, 2 * SLOT + 1, int(w * 1e9) // 3])
+        # passes that only transmit (what the threaded worker does between bus reads): the window must slide on those too
+        txonly = rng.choice([0, 0, 0.3, 0.9])
+        if txonly or slow:
+            # no Flow Control is read on such passes / the driver eats the time: keep the legitimate N_Bs expiry out of these schedules
+            params['rx_flowcontrol_timeout'] = 10000000
         pre = gen.prefix_len(a, 'tx')
         c = txdl - 1 - pre
         rid = 0
@@ -59,15 +69,21 @@ class C15(PropBase):
         budget_frames = max(1, int(br * w) // (txdl * 8))
         steps = min(400, int(nframes / budget_frames * 8) + nframes // 2 + 12)
         for k in range(steps):
-            ops.append({'op': 'frame', 'i': 0, 'id': fid, 'ext': ext, 'data': data})
-            ops.append({'op': 'process', 'i': 0})
+            if rng.random() < txonly:
+                ops.append({'op': 'process', 'i': 0, 'rx': False})
+            else:
+                ops.append({'op': 'frame', 'i': 0, 'id': fid, 'ext': ext, 'data': data})
+                ops.append({'op': 'process', 'i': 0})
             ops.append({'op': 'tick', 'dt': rng.choice([0, 1000, SLOT - 1, SLOT + 1, wns // 7, wns // 2, wns - SLOT, wns, wns + 1, 3 * wns])})
         for _ in range(nframes + 4):
             ops.append({'op': 'frame', 'i': 0, 'id': fid, 'ext': ext, 'data': data, 'keep': True})
             ops.append({'op': 'process', 'i': 0, 'keep': True})
             ops.append({'op': 'tick', 'dt': wns + SLOT + 1, 'keep': True})
         ops.append({'op': 'process', 'i': 0, 'keep': True})
-        return {'ops': ops}
+        sc = {'ops': ops}
+        if slow:
+            sc['no_model'] = True
+        return sc
 
     def project(self, op_line, out_line):
         return trace.project_events(out_line, keep=('tx',), status_keys=('th',))
@@ -83,12 +99,25 @@ class C15(PropBase):
         W = math.floor(Fraction(float(w)) * 10**9)
         M = math.floor(p['rate_limit_max_bitrate'] * float(w))
         frames = []
+        now = 0
         for r in trace.records(lines_in, impl_out):
+            if r.op == 'tick':
+                now += int(r.toks[1])
+            start = now
             if not enabled and r.status.get('th') == '1':
                 out.append(('disabled', 'limiter disabled but is_tx_throttled() is true'))
             for e in r.events:
+                if 't' in e:
+                    now = max(now, e['t'])
                 if e['k'] == 'tx' and ref.classify(e['data'][len(prefix):])[0] != 'fc':
                     frames.append((e['t'], len(e['data'])))
+            # never stalls: a frame is still held back after a transmitting pass although nothing at all was handed over during the
+            # whole window (plus one accounting slot) before the pass began: the budget was entirely free
+            if enabled and r.op == 'process' and r.toks[3:4] == ['1'] and r.status.get('th') == '1' and not out:
+                t0 = max([e['t'] for e in r.events if e['k'] in ('rx', 'rxn')] + [start])
+                if not any(t >= t0 - W - SLOT for (t, _) in frames):
+                    out.append(('stall', 'pass at t=%d leaves a frame held back by the limiter although no data frame was handed over since t=%d '
+                                '(window %d ns)' % (t0, t0 - W - SLOT, W)))
         if enabled:
             L = W - SLOT
             for i in range(len(frames)):
